@@ -193,3 +193,30 @@ Definition std_path (p : list ascii) : option (list N) :=
       else None
   | [] => None
   end.
+
+(* --- The path language the library accepts ---------------------------
+   Not part of the standard: the explicit description of what derive_from_path really reads, proved
+   equal to the implementation model's parser in Proofs/Bip32PathProofs.v (C08_path_grammar).
+   It is a superset of the standard notation above (C08_std_paths_ok); the additional strings are read
+   as the evident standard path (no key other than the one of that path can result), except that the bare
+   "m" is refused. *)
+Definition dec_value (ds : list ascii) : N :=
+  fold_left (fun a c => (10 * a + (N_of_ascii c - 48))%N) ds 0%N.
+
+(* one component:  [+] digit+ H* h* '*   with value below 2^31; hardened iff a mark is present *)
+Definition path_component (x : list ascii) (i : N) : Prop :=
+  exists plus ds a b c,
+    x = plus ++ ds ++ repeat "H"%char a ++ repeat "h"%char b ++ repeat "'"%char c /\
+    (plus = [] \/ plus = ["+"%char]) /\ ds <> [] /\ Forall (fun ch => is_digit ch = true) ds /\
+    (dec_value ds < 2147483648)%N /\
+    i = (if Nat.eqb (a + b + c) 0 then dec_value ds else dec_value ds + 2147483648)%N.
+
+(* after the leading m / M: components separated by one or more '/', optional '/' at both ends *)
+Inductive path_body : list ascii -> list N -> Prop :=
+| pb_nil : path_body [] []
+| pb_slash s idx : path_body s idx -> path_body ("/"%char :: s) idx
+| pb_last x i : path_component x i -> path_body x [i]
+| pb_cons x i s idx : path_component x i -> path_body s idx -> path_body (x ++ "/"%char :: s) (i :: idx).
+
+Definition path_language (p : list ascii) (idx : list N) : Prop :=
+  exists c s, p = c :: s /\ (c = "m"%char \/ c = "M"%char) /\ path_body s idx /\ idx <> [].
